@@ -4388,6 +4388,19 @@ CK_RV SoftHSM::AsymSignInit(CK_SESSION_HANDLE hSession, CK_MECHANISM_PTR pMechan
 			return CKR_MECHANISM_INVALID;
 	}
 
+	// Check that the type of the key matches the mechanism
+	CK_KEY_TYPE keyType = key->getUnsignedLongValue(CKA_KEY_TYPE, CKK_VENDOR_DEFINED);
+	if ((isRSA && keyType != CKK_RSA) ||
+	    (isDSA && keyType != CKK_DSA)
+#ifdef WITH_ECC
+	    || (isECDSA && keyType != CKK_EC)
+#endif
+#ifdef WITH_EDDSA
+	    || (isEDDSA && keyType != CKK_EC_EDWARDS)
+#endif
+	   )
+		return CKR_KEY_TYPE_INCONSISTENT;
+
 	AsymmetricAlgorithm* asymCrypto = NULL;
 	PrivateKey* privateKey = NULL;
 	if (isRSA)
@@ -5363,6 +5376,19 @@ CK_RV SoftHSM::AsymVerifyInit(CK_SESSION_HANDLE hSession, CK_MECHANISM_PTR pMech
 		default:
 			return CKR_MECHANISM_INVALID;
 	}
+
+	// Check that the type of the key matches the mechanism
+	CK_KEY_TYPE keyType = key->getUnsignedLongValue(CKA_KEY_TYPE, CKK_VENDOR_DEFINED);
+	if ((isRSA && keyType != CKK_RSA) ||
+	    (isDSA && keyType != CKK_DSA)
+#ifdef WITH_ECC
+	    || (isECDSA && keyType != CKK_EC)
+#endif
+#ifdef WITH_EDDSA
+	    || (isEDDSA && keyType != CKK_EC_EDWARDS)
+#endif
+	   )
+		return CKR_KEY_TYPE_INCONSISTENT;
 
 	AsymmetricAlgorithm* asymCrypto = NULL;
 	PublicKey* publicKey = NULL;
